@@ -224,7 +224,7 @@ func TestBlinding(t *testing.T) {
 		m = 6
 	}
 	g := genCase(curvesForTier(), m)
-	rec.Check(t, "blind", ev.N(120, 5000), func(rt *rapid.T) {
+	rec.Check(t, "blind", ev.N(360, 5000), func(rt *rapid.T) {
 		c := g.Draw(rt, "case")
 		rec.Begin("blind", c)
 		rec.Report(rt, "blind", c, run(c, rec))
